@@ -8,7 +8,7 @@ import ast
 
 from ..core.absint import Interp, alternatives, pretty
 from ..core.analysis import Analysis, assigned_names, facts
-from ..core.astutil import handler_catches, order_rel
+from ..core.astutil import handler_catches, order_rel, path_templates
 from ..core.cfg import decompose_guard
 from ..core.forms import canon
 from ..core.pyrepo import Repo, calls_in, dotted, norm_stmt
@@ -64,9 +64,8 @@ def run(ctx):
         f = repo.func(pm, q)
         cs = [c for c in calls_in(f.node) if isinstance(c.func, ast.Attribute)
               and c.func.attr == "_readlink"]
-        good = len(cs) == 1 and cs[0].args and isinstance(cs[0].args[0], ast.JoinedStr) \
-            and norm_stmt(cs[0].args[0]).endswith(f"/{leaf}'") \
-            and "{self.pid}" in norm_stmt(cs[0].args[0]) \
+        tmpls = path_templates(repo, f, cs[0].args[0]) if len(cs) == 1 and cs[0].args else set()
+        good = bool(tmpls) and all(t.endswith("{self.pid}/" + leaf) for t in tmpls) \
             and any(k.arg == "fallback" and isinstance(k.value, ast.Constant)
                     and k.value.value == "" for k in cs[0].keywords)
         if good:
